@@ -8,10 +8,10 @@ import ColaVerif.Model.Arnoldi
 1. `res = rhs - A @ x0` (one product with the operator per column);
 2. batched Arnoldi on `res` (`Model/Arnoldi.lean`; at most `min(max_iters, n)` further products
    per column);
-3. `Q, H = Q[:, :, :-1], H[:, :-1, :]` — the last column of `Q` **and the last row of `H`** are
-   dropped, so `H` is the square `M × M` part of the buffer;
-4. the padding mask: `largest_vals = max(|H|, axis=-1)` (per **row**), `overall_max`,
-   `zero_thresh = 10 * tol * overall_max`, `padding = largest_vals < zero_thresh`;
+3. `Q = Q[:, :, :-1]` — the last column of `Q` is dropped, `H` keeps its `M+1` rows (switch
+   `drop = false`; the old code also dropped the last row of `H`: `drop = true`);
+4. the padding mask: `largest_vals = max(|H|, axis=-2)` (per **column**; per row in the old code),
+   `overall_max`, `zero_thresh = 10 * tol * overall_max`, `padding = largest_vals < zero_thresh`;
 5. regularised normal equations `y = solve(Hᴴ H + diag(padding), Hᴴ[:, 0]) * beta`,
    `y = where(padding, 0, y)`;
 6. `soln = x0 + Q @ y`.
@@ -27,12 +27,13 @@ open Arnoldi
 
 variable {α V : Type}
 
-/-- Switch for defect (b).  `true` mirrors /repo: `Q, H = Q[:, :, :-1], H[:, :-1, :]` (square `H`,
-row-wise padding mask) — the iterate is the Galerkin / FOM iterate.  `false` is the proposed
-repair: keep all `M+1` rows of `H` (`Q = Q[:, :, :-1]` only) and take the padding mask per
-**column** (`largest_vals = max(|H|, axis=-2)`), which makes `y` the least-squares solution of
-`min ‖β e₁ − H̃ y‖`, i.e. the residual minimiser. -/
-def dropLastRow : Bool := true  -- mirrors /repo: cola/linalg/inverse/gmres.py `Q, H = Q[:, :, :-1], H[:, :-1, :]`
+/-- Switch for (former) defect (b).  `false` mirrors /repo since commit 9a9bf4d ("GMRES solves the
+(m+1) x m least-squares problem instead of the square Galerkin system"): `Q = Q[:, :, :-1]`, all `M+1`
+rows of `H` kept, padding mask per **column** (`largest_vals = max(|H|, axis=-2)`): `y` is the
+least-squares solution of `min ‖β e₁ − H̃ y‖`, the residual minimiser.  `true` is the old behaviour
+(`Q, H = Q[:, :, :-1], H[:, :-1, :]`, square `H`, row-wise mask: the Galerkin / FOM iterate), kept as a
+variant for the lemmas `C13_dropped_row_is_FOM`, `C13_dropped_row_witness`. -/
+def dropLastRow : Bool := false  -- mirrors /repo: cola/linalg/inverse/gmres.py `Q = Q[:, :, :-1]` (H kept whole), `largest_vals = xnp.max(xnp.abs(H), -2)`
 
 section
 variable [Num α]
